@@ -18,6 +18,8 @@ type DriverSpec struct {
 	Impl    *ssa.Function
 	RefPkg  *ssa.Package
 	ImplPkg *ssa.Package
+	// RefPlain: the reference side is ordinary Go too (no coroutine intrinsics)
+	RefPlain bool
 }
 
 type PathSample struct {
@@ -173,7 +175,11 @@ func (w *Worker) runPath(spec *DriverSpec, prefix []int) (abort *pathAbort) {
 		}
 	}()
 	if spec.Ref != nil {
-		w.runEntry(spec.RefPkg, spec.Ref, 0, 0, spec.Impl == nil)
+		world := 0
+		if spec.RefPlain {
+			world = 1
+		}
+		w.runEntry(spec.RefPkg, spec.Ref, world, 0, spec.Impl == nil)
 	}
 	if spec.Impl != nil {
 		log := 1
